@@ -33,9 +33,10 @@ def _F(x):
         return Fraction(x)
     if isinstance(x, float):
         # floats are treated as the decimal number they print as ("machine arithmetic treated as mathematical")
+        x = float(x)
         if x != x or x in (float("inf"), float("-inf")):
             raise ValueError("non-finite float")
-        return Fraction(repr(x))
+        return Fraction(float.__repr__(x))
     try:
         import numpy as np
         if isinstance(x, np.integer):
